@@ -873,6 +873,31 @@ func (c *client) metaLookup(ctx context.Context,
 	}
 
 	reg, addr, err := region.ParseRegionInfo(resp)
+	for err != nil {
+		if _, offline := err.(region.OfflineRegionError); !offline || len(resp.Cells) == 0 {
+			break
+		}
+		// The row of a split parent that hasn't been cleaned up yet. If its
+		// daughters were still around, the closest row would be one of
+		// theirs: the key now belongs to a region that starts before the
+		// parent (the daughter was merged). Look at the row before this one.
+		rpc, err = hrpc.NewScanRange(ctx, metaTableName, rowBefore(resp.Cells[0].Row), table,
+			hrpc.Families(infoFamily),
+			hrpc.Reversed(),
+			hrpc.CloseScanner(),
+			hrpc.NumberOfRows(1))
+		if err != nil {
+			return nil, "", err
+		}
+		resp, err = c.Scan(rpc).Next()
+		if err == io.EOF {
+			return nil, "", TableNotFound
+		}
+		if err != nil {
+			return nil, "", err
+		}
+		reg, addr, err = region.ParseRegionInfo(resp)
+	}
 	if err != nil {
 		return nil, "", err
 	}
@@ -887,6 +912,18 @@ func (c *client) metaLookup(ctx context.Context,
 			"  Looked up table=%q key=%q got region=%s", table, key, reg)
 	}
 	return reg, addr, nil
+}
+
+// rowBefore returns the closest row key sorting before the given non-empty
+// one, for all practical purposes (same construction as in scanner.update).
+func rowBefore(row []byte) []byte {
+	if row[len(row)-1] == 0 {
+		return row[:len(row)-1]
+	}
+	before := make([]byte, len(row), len(row)+len(rowPadding))
+	copy(before, row)
+	before[len(before)-1]--
+	return append(before, rowPadding...)
 }
 
 // Creates the META key to search for all regions
